@@ -851,7 +851,12 @@ class Executor:
                     out.append(Path("panic", list(st["pc"]), None, list(st["events"]), "resume"))
                     return
                 if t[0] == "drop":
-                    st["events"].append(Event("drop", "drop", [self.resolve(st, fid, body, t[1])], list(st["pc"]), (body.name, bb), None, body.name, bb))
+                    dn = self.resolve(st, fid, body, t[1])
+                    st["events"].append(Event("drop", "drop", [dn], list(st["pc"]), (body.name, bb), None, body.name, bb))
+                    hook = getattr(self.ctx, "on_drop", None)
+                    if hook is not None:
+                        # drop glue of the value in that place (drop elaboration has already made the drop flags explicit)
+                        hook(self, st, dn, self.place_type(body, t[1]))
                     bb = t[2]
                     if bb is None:
                         out.append(Path("diverge", list(st["pc"]), None, list(st["events"]), "drop without return"))
@@ -1090,6 +1095,12 @@ class Executor:
                 return Fork([(is_some, lambda ex, st_, tr: ex.apply(tr(argvals[1]), [pay(ex, tr(x))], callee)), (is_none, lambda ex, st_, tr: none(ex))])
             if meth == "map_or":
                 return Fork([(is_some, lambda ex, st_, tr: ex.apply(tr(argvals[2]), [pay(ex, tr(x))], callee)), (is_none, lambda ex, st_, tr: tr(argvals[1]))])
+            if meth == "is_some_and":
+                return Fork([(is_some, lambda ex, st_, tr: ex.apply(tr(argvals[1]), [pay(ex, tr(x))], callee)), (is_none, lambda ex, st_, tr: z3.BoolVal(False))])
+            if meth == "is_none_or":
+                return Fork([(is_some, lambda ex, st_, tr: ex.apply(tr(argvals[1]), [pay(ex, tr(x))], callee)), (is_none, lambda ex, st_, tr: z3.BoolVal(True))])
+            if meth == "map_or_else":
+                return Fork([(is_some, lambda ex, st_, tr: ex.apply(tr(argvals[2]), [pay(ex, tr(x))], callee)), (is_none, lambda ex, st_, tr: ex.apply(tr(argvals[1]), [], callee))])
             if meth == "ok_or_else":
                 def ooe(ex, st_, tr):
                     r = ex.apply(tr(argvals[1]), [], callee)
@@ -1122,6 +1133,12 @@ class Executor:
             return is_ok if meth == "is_ok" else is_err
         if meth in ("unwrap", "expect"):
             return ("panic", is_err, okp(self, x))
+        if meth == "is_ok_and":
+            return Fork([(is_ok, lambda ex, st_, tr: ex.apply(tr(argvals[1]), [okp(ex, tr(x))], callee)), (is_err, lambda ex, st_, tr: z3.BoolVal(False))])
+        if meth == "is_err_and":
+            return Fork([(is_err, lambda ex, st_, tr: ex.apply(tr(argvals[1]), [errp(ex, tr(x))], callee)), (is_ok, lambda ex, st_, tr: z3.BoolVal(False))])
+        if meth == "unwrap_or":
+            return Fork([(is_ok, lambda ex, st_, tr: okp(ex, tr(x))), (is_err, lambda ex, st_, tr: tr(argvals[1]))])
         if meth == "ok":
             return Fork([(is_ok, lambda ex, st_, tr: ex.mk_variant("Option", 1, "Some", okp(ex, tr(x)))), (is_err, lambda ex, st_, tr: ex.mk_variant("Option", 0, "None"))])
         if meth == "err":
